@@ -35,7 +35,29 @@ SCALES = {
     "s1e-5": (1e-5, 1e-5, 1e-5),
     "s1e-6": (1e-6, 1e-6, 1e-6),
     "needle": (1.0, 1e-5, 1e-5),
+    # support points of a size-100 shape next to a unit shape, as GJK meets them: long along x, irrational in y and z; the variants
+    # big70u1 / big70u2 additionally perturb every coordinate by 0-2 ulp (exactly degenerate configurations become degenerate
+    # only up to rounding, which is how collinear / coinciding support points really arrive)
+    "big70": (70.0, 0.7071067811865476, 0.7071067811865476),
+    "big70u1": (70.0, 0.7071067811865476, 0.7071067811865476),
+    "big70u2": (70.0, 0.7071067811865476, 0.7071067811865476),
 }
+ULP_PATTERN = {"big70u1": 1, "big70u2": 2}
+
+
+def _ulp_noise(base, pattern):
+    """Deterministic perturbation of every coordinate by 0..2 ulp (sign and size depend on the point / axis index)."""
+    out = []
+    for i, p in enumerate(base):
+        q = []
+        for j, c in enumerate(p):
+            n = ((i * 3 + j) * (2 * pattern + 1) + pattern) % 5 - 2      # -2..2
+            x = float(c)
+            for _ in range(abs(n) if x != 0.0 else 0):      # zeros stay exact (no denormals)
+                x = float(np.nextafter(x, np.inf if n > 0 else -np.inf))
+            q.append(x)
+        out.append(tuple(q))
+    return out
 
 
 NEEDLE_ROTS = [np.eye(3),
@@ -91,7 +113,7 @@ def enumerate_states(tier, seed):
     k4 = [{"k": 4, "pts": ms, "scale": "unit"} for ms in _multisets(v1, 4)]
     meta = {}
     states += needle_states()
-    extra_scales_quick = ("small", "s1e-4", "needle", "aniso3")
+    extra_scales_quick = ("small", "s1e-4", "needle", "aniso3", "big70", "big70u1", "big70u2")
     if tier == "quick":
         states += k4
         n_sl = 8
@@ -159,6 +181,8 @@ def run_state(desc):
     else:
         sc = SCALES[desc["scale"]]
         base = [tuple(float(c) * s for c, s in zip(p, sc)) for p in desc["pts"]]
+        if desc["scale"] in ULP_PATTERN:
+            base = _ulp_noise(base, ULP_PATTERN[desc["scale"]])
     exact_pts = [tuple(F(c) for c in p) for p in base]
     nsq, vstar, S, lam = ref.min_norm(exact_pts)
     ref_norm = float(nsq) ** 0.5 if nsq < 1e-300 else (float(nsq.numerator) / float(nsq.denominator)) ** 0.5
